@@ -630,7 +630,10 @@ def _insert_guards(f, ins, db):
     if sw is None:
         return False
     _, tr, fl = sw
-    return f.dominates(tr, db) and db not in f.reach_from(fl, avoid={ib})
+    # keyed on the walked path itself (clones / conversions only): a derived key can identify two different files
+    kc = prov_calls(provenance(f, it["args"][1]))
+    keyed = bool(kc) and all(re.search(r"ignore::Walk as std::iter::Iterator>::next$|DirEntry::(path|into_path)$", c) for c in kc)
+    return keyed and f.dominates(tr, db) and db not in f.reach_from(fl, avoid={ib})
 
 
 def rule_walk(ctx, prop):
@@ -681,7 +684,9 @@ def rule_walk(ctx, prop):
             pl = f.names.get("path", {}).get("l")
             k1 = provenance(f, ct["args"][1])
             k2 = provenance(f, it["args"][1])
-            keyed = bool(k1 & k2)
+            kc = prov_calls(k1) | prov_calls(k2)
+            keyed = bool(k1 & k2) and bool(kc) and \
+                all(re.search(r"ignore::Walk as std::iter::Iterator>::next$|DirEntry::(path|into_path)$", c) for c in kc)
             rep.inst("stylua::format dispatch-dominated-by-not-seen-and-insert", None, cfg, ok=ok and bool(same_set) and keyed)
             if not (ok and same_set and keyed):
                 rep.violation("stylua::format dedup-not-enforced",
